@@ -51,6 +51,10 @@ pub fn universe(thorough: bool) -> Vec<V> {
         f(2.0),
         s("a b"),
         f(1.5),
+        // neighbours beyond 2^53: distinct integers that one f64 cannot tell apart
+        i(i64::MAX - 1),
+        i(9007199254740992),
+        i(9007199254740993),
     ];
     if thorough {
         u.extend(vec![
